@@ -77,8 +77,10 @@ ShiftL(a, n) == [i \in 1..n |-> 0] \o a                                  \* a * 
 One == <<0, 0, 1>>
 FixMul(a, b) == ShiftR(Mul(a, b), 2)
 
-\* pi * p / q  (p, q positive ints, p < 2^14, 113 * q < 2^16)
-PiFrac(p, q) == DivSmall(MulSmall(MulSmall(One, 355), p), 113 * q)
+\* pi * p / q  (p, q positive ints, p < 2^14, q < 2^16).  DivSmall needs its divisor below 2^16 (remainder *
+\* limb base stays in int32): for q >= 580 the division is done in two steps (one more unit in the last place).
+PiFrac(p, q) == IF 113 * q < 65536 THEN DivSmall(MulSmall(MulSmall(One, 355), p), 113 * q)
+                ELSE DivSmall(DivSmall(MulSmall(MulSmall(One, 355), p), 113), q)
 
 RECURSIVE SinR(_, _, _, _, _, _)
 SinR(x2, term, k, pos, neg, plus) ==
